@@ -158,6 +158,15 @@ def replay_file(path):
         fails, det = replay(w["witness"])
         print(json.dumps({"still_fails": fails, "details": det}, indent=1, default=str))
         return 1 if fails else 0
+    if kind == "bnd":
+        sys.path.insert(0, os.environ.get("PYVC_REPO", "/repo"))
+        from . import bnd
+        rec = bnd._dispatch(w["case"])
+        print(json.dumps({"monitors": rec.get("monitors"), "exc": rec.get("exc"), "summary": rec.get("summary"),
+                          "initial_duplicates": rec.get("initial_duplicates"), "non_monotone_at": rec.get("non_monotone_at")},
+                         indent=1, default=str))
+        bad = bool(rec.get("monitors")) or bool(rec.get("exc")) or bool(rec.get("initial_duplicates")) or bool(rec.get("non_monotone_at"))
+        return 1 if bad else 0
     if kind == "script":
         import subprocess
         r = subprocess.run([sys.executable, "-c", w["script"]], capture_output=True, text=True, timeout=600)
